@@ -3,10 +3,10 @@
 From Coq Require Import String.
 From Coq Require Import List NArith Arith Bool Lia.
 Import ListNotations.
-From TV Require Import C08.Base C08.BaseProofs C08.Model C08.Proofs C08.Proofs2 C08.ProofsChunk C08.Proofs3.
+From TV Require Import C08.Base C08.BaseProofs C08.Model C08.Proofs C08.Proofs2 C08.ProofsChunk C08.ProofsFuel C08.Proofs3.
 
 Definition cfg_ex (str dec hd : bool) : cfg :=
-  {| max_header := 1000; max_body := 100; chunk_pred := 63; is_head := hd; decompress := dec; streaming := str |}.
+  {| max_header := 1000; max_body := 100; chunk_pred := 63; is_head := hd; decompress := dec; streaming := str; expect100 := false |}.
 Definition CL2 : bytes := s2b "HTTP/1.1 200 OK" ++ CRLF ++ s2b "Content-Length: 2" ++ CRLF ++ CRLF.
 Definition TE : bytes := s2b "HTTP/1.1 200 OK" ++ CRLF ++ s2b "Transfer-Encoding: chunked" ++ CRLF ++ CRLF.
 Definition BARE : bytes := s2b "HTTP/1.0 404 Not Found" ++ CRLF ++ s2b "X-A: b" ++ CRLF ++ CRLF.
@@ -17,7 +17,7 @@ Notation strictT c := (strict_client c []).
 (* a Content-Length response followed by unrelated bytes, in three segments *)
 Example ex_fixed :
   client_seg (cfg_ex false false false) [] [firstn 7 CL2; skipn 7 CL2 ++ s2b "h"; s2b "iTRAIL"]
-  = Res (OResp 200 (Some (s2b "OK")) [(s2b "Content-Length", s2b "2")] (s2b "hi")) false [].
+  = Res (OResp 200 (Some (s2b "OK")) [(s2b "Content-Length", s2b "2")] (s2b "hi")) false [] false.
 Proof. vm_compute. reflexivity. Qed.
 
 Example ex_final_at :
@@ -34,7 +34,7 @@ Qed.
 Example ex_chunked :
   strictT (cfg_ex true false false)
     (TE ++ chunks_wire [(s2b "3", s2b "hel"); (s2b "02", s2b "lo")] ++ s2b "0" ++ CRLF ++ CRLF ++ s2b "X")
-  = Res (OResp 200 (Some (s2b "OK")) [(s2b "Transfer-Encoding", s2b "chunked")] []) false (s2b "hello").
+  = Res (OResp 200 (Some (s2b "OK")) [(s2b "Transfer-Encoding", s2b "chunked")] []) false (s2b "hello") false.
 Proof. vm_compute. reflexivity. Qed.
 Example ex_chunk_ok : Forall chunk_ok [(s2b "3", s2b "hel"); (s2b "02", s2b "lo")].
 Proof. repeat constructor; try (vm_compute; lia); discriminate. Qed.
@@ -42,51 +42,51 @@ Proof. repeat constructor; try (vm_compute; lia); discriminate. Qed.
 (* close-delimited, after an interim response *)
 Example ex_close_after_interim :
   strictT (cfg_ex false false false) (CONT ++ BARE ++ s2b "body")
-  = Res (OResp 404 (Some (s2b "Not Found")) [(s2b "X-A", s2b "b")] (s2b "body")) true [].
+  = Res (OResp 404 (Some (s2b "Not Found")) [(s2b "X-A", s2b "b")] (s2b "body")) true [] false.
 Proof. vm_compute. reflexivity. Qed.
 Example ex_interim_premises :
   head_at (cfg_ex false false false) (CONT ++ BARE ++ s2b "body") CONT (BARE ++ s2b "body") /\
   parse_resp_head CONT = Some (100%N, Some (s2b "Continue"), []) /\
-  strictT (cfg_ex false false false) (BARE ++ s2b "body") <> OutOfFuel.
-Proof. repeat split; vm_compute; try reflexivity. discriminate. Qed.
+  expect100 (cfg_ex false false false) && (100 =? 100)%N = false.
+Proof. repeat split; vm_compute; reflexivity. Qed.
 
 (* rejections *)
 Example ex_bad_status_line :
-  strictT (cfg_ex false false false) (s2b "HTTP/1.1 20 OK" ++ CRLF ++ CRLF) = Res (OErr EMalformed) false [].
+  strictT (cfg_ex false false false) (s2b "HTTP/1.1 20 OK" ++ CRLF ++ CRLF) = Res (OErr EMalformed) false [] false.
 Proof. vm_compute. reflexivity. Qed.
 Example ex_interim_with_length :
   strictT (cfg_ex false false false)
     (s2b "HTTP/1.1 100 Continue" ++ CRLF ++ s2b "Content-Length: 0" ++ CRLF ++ CRLF ++ CL2 ++ s2b "hi")
-  = Res (OErr EConnClosed) false [].
+  = Res (OErr EConnClosed) false [] false.
 Proof. vm_compute. reflexivity. Qed.
 Example ex_204_with_length :
   strictT (cfg_ex false false false)
     (s2b "HTTP/1.1 204 No Content" ++ CRLF ++ s2b "Content-Length: 2" ++ CRLF ++ CRLF ++ s2b "xx")
-  = Res (OErr EConnClosed) false [].
+  = Res (OErr EConnClosed) false [] false.
 Proof. vm_compute. reflexivity. Qed.
 Example ex_cl_and_te :
   strictT (cfg_ex false false false)
     (s2b "HTTP/1.1 200 OK" ++ CRLF ++ s2b "Content-Length: 2" ++ CRLF ++ s2b "Transfer-Encoding: chunked"
        ++ CRLF ++ CRLF ++ s2b "hi")
-  = Res (OErr EConnClosed) false [].
+  = Res (OErr EConnClosed) false [] false.
 Proof. vm_compute. reflexivity. Qed.
 Example ex_truncated_fixed :
-  strictT (cfg_ex true false false) (CL2 ++ s2b "h") = Res (OErr EConnClosed) true (s2b "h").
+  strictT (cfg_ex true false false) (CL2 ++ s2b "h") = Res (OErr EConnClosed) true (s2b "h") false.
 Proof. vm_compute. reflexivity. Qed.
 Example ex_truncated_chunked :
-  strictT (cfg_ex true false false) (TE ++ s2b "5" ++ CRLF ++ s2b "hel") = Res (OErr EConnClosed) true (s2b "hel").
+  strictT (cfg_ex true false false) (TE ++ s2b "5" ++ CRLF ++ s2b "hel") = Res (OErr EConnClosed) true (s2b "hel") false.
 Proof. vm_compute. reflexivity. Qed.
 Example ex_broken_chunk_premise :
   forall s, snd (read_chunked whole_ops (cfg_ex true false false) 9 0 (s2b "5" ++ CRLF ++ s2b "hel")) <> BDone s.
 Proof. intros s. vm_compute. discriminate. Qed.
 Example ex_close_too_long :
   strictT {| max_header := 1000; max_body := 3; chunk_pred := 63; is_head := false; decompress := false;
-             streaming := true |} (BARE ++ s2b "body")
-  = Res (OErr EConnClosed) true [].
+             streaming := true; expect100 := false |} (BARE ++ s2b "body")
+  = Res (OErr EConnClosed) true [] false.
 Proof. vm_compute. reflexivity. Qed.
 Example ex_head :
   strictT (cfg_ex false false true) (CL2 ++ s2b "hi")
-  = Res (OResp 200 (Some (s2b "OK")) [(s2b "Content-Length", s2b "2")] []) false [].
+  = Res (OResp 200 (Some (s2b "OK")) [(s2b "Content-Length", s2b "2")] []) false [] false.
 Proof. vm_compute. reflexivity. Qed.
 
 (* gzip: a 3-byte compressed body inflated by the recorded decompressor, the Content-Encoding
@@ -97,17 +97,37 @@ Example ex_gzip :
   strict_client (cfg_ex false true false) [GDec 3 64 (s2b "hello") 0; GFlush false true] (GZ ++ [1; 2; 3]%N)
   = Res (OResp 200 (Some (s2b "OK"))
           [(s2b "Content-Length", s2b "3"); (s2b "X-Consumed-Content-Encoding", s2b "gzip")] (s2b "hello"))
-        false [].
+        false [] false.
 Proof. vm_compute. reflexivity. Qed.
 Example ex_gzip_truncated :
   strict_client (cfg_ex false true false) [GDec 3 64 (s2b "hel") 0; GFlush false false] (GZ ++ [1; 2; 3]%N)
-  = Res (OErr EMalformed) false [].
+  = Res (OErr EMalformed) false [] false.
 Proof. vm_compute. reflexivity. Qed.
 Example ex_gzip_too_large :
   strict_client {| max_header := 1000; max_body := 4; chunk_pred := 63; is_head := false; decompress := true;
-                   streaming := true |} [GDec 3 64 (s2b "hello") 0] (GZ ++ [1; 2; 3]%N)
-  = Res (OErr EConnClosed) false [].
+                   streaming := true; expect100 := false |} [GDec 3 64 (s2b "hello") 0] (GZ ++ [1; 2; 3]%N)
+  = Res (OErr EConnClosed) false [] false.
 Proof. vm_compute. reflexivity. Qed.
+
+(* expect_100_continue: the body is written on the 100, the response follows; a second 100 is refused *)
+Definition cfg_exp : cfg :=
+  {| max_header := 1000; max_body := 100; chunk_pred := 63; is_head := false; decompress := false;
+     streaming := false; expect100 := true |}.
+Example ex_continue :
+  client_seg cfg_exp [] [CONT; CL2 ++ s2b "hi"]
+  = Res (OResp 200 (Some (s2b "OK")) [(s2b "Content-Length", s2b "2")] (s2b "hi")) false [] true.
+Proof. vm_compute. reflexivity. Qed.
+Example ex_no_continue :
+  client_seg cfg_exp [] [CL2 ++ s2b "hi"]
+  = Res (OResp 200 (Some (s2b "OK")) [(s2b "Content-Length", s2b "2")] (s2b "hi")) false [] false.
+Proof. vm_compute. reflexivity. Qed.
+Example ex_two_continues :
+  client_seg cfg_exp [] [CONT; CONT; CL2 ++ s2b "hi"] = Res (OErr EConnClosed) false [] true.
+Proof. vm_compute. reflexivity. Qed.
+Example ex_continue_premises :
+  head_at cfg_exp (CONT ++ CL2 ++ s2b "hi") CONT (CL2 ++ s2b "hi") /\
+  parse_resp_head CONT = Some (100%N, Some (s2b "Continue"), []).
+Proof. split; vm_compute; reflexivity. Qed.
 
 (* ---------- the premise of the decompressing refinement is satisfiable ---------- *)
 (* a decompressor that rejects every input: how the body is cut into pieces is irrelevant *)
@@ -115,13 +135,13 @@ Definition inflate_never : unit -> bytes -> nat -> option (unit * bytes * bytes)
 
 Lemma deliver_never c : forall cs (d : @dstate unit), d_gzon d = true ->
   dproj false (deliver inflate_never c d cs) =
-  match concat cs with [] => DOk d | _ => DBad (DS [] [] false tt 0%N false) end.
+  match concat cs with [] => DOk d | _ => DBad (DS [] [] false tt 0%N false (d_sent d)) end.
 Proof.
   induction cs as [|p r IH]; intros d Hon; [reflexivity|].
   cbn [deliver concat]. unfold data_received. rewrite Hon.
   destruct p as [|x p].
   - cbn [gz_chunk app]. rewrite orb_false_r.
-    replace (DS (d_chunks d) (d_streamed d) true (d_gz d) (d_gzsize d) (d_gzrecv d)) with d
+    replace (DS (d_chunks d) (d_streamed d) true (d_gz d) (d_gzsize d) (d_gzrecv d) (d_sent d)) with d
       by (destruct d; cbn in *; subst; reflexivity).
     apply IH. exact Hon.
   - cbn [gz_chunk app]. unfold inflate_never. cbn [dproj]. destruct (d_gz _). reflexivity.
